@@ -195,10 +195,26 @@ def run(tier, replay=None):
                     if info["fault"] != "none":
                         ot = cli(dt, "--json")
                         ev["cli_twin"] = from_json(ot, dt) if ot else []
+                    elif i % 3 == 0 or p.get("explicit"):
+                        # the same tree with every include spelled as an absolute path: nothing may change
+                        da = os.path.join(td, str(i) + "a")
+                        os.makedirs(da)
+                        for n, t in texts.items():
+                            open(os.path.join(da, n), "w").write(
+                                re.sub(r'(\.include ")([^"/][^"]*")', lambda m: m.group(1) + os.path.realpath(da) + "/" + m.group(2), t))
+                        oja = cli(da, "--json")
+                        oca = cli(da, "--compact", "--no-color") or ""
+                        ev["abs_run"] = oja is not None
+                        ev["abs_all"] = from_json(oja, da) if oja else []
+                        ev["abs_base"] = from_compact(oca, da)
+                        hh = re.search(r"(\d+) diagnostics? found in other files", oca)
+                        ev["abs_hidden"] = int(hh.group(1)) if hh else 0
                 except (ValueError, KeyError):
                     ev["cli_ev"] = "bad-json"
             # the IO fault reads differently through the two readers: normalise the message of reader errors to its kind
-            for kk in ("lib", "cli_all", "cli_base", "cli_af", "lib_twin", "cli_twin", "flat"):
+            for kk in ("abs_run", "abs_all", "abs_base", "abs_hidden"):
+                ev.setdefault(kk, {"abs_run": False, "abs_hidden": 0}.get(kk, []))
+            for kk in ("lib", "cli_all", "cli_base", "cli_af", "lib_twin", "cli_twin", "flat", "abs_all", "abs_base"):
                 for x in ev[kk]:
                     if x["kind"] in ("File not found", "IO Error", "Cyclic dependency"):
                         x["title"] = x["kind"]
@@ -303,6 +319,10 @@ def run(tier, replay=None):
         e.setdefault("cli_only", False)
         e.setdefault("cli_af", [])
         e.setdefault("cli_af_hidden", 0)
+        e.setdefault("abs_run", False)
+        e.setdefault("abs_all", [])
+        e.setdefault("abs_base", [])
+        e.setdefault("abs_hidden", 0)
     v, ress = validate_chunks("Trace_Include", evs, wd, "inc.chunk", chunk=3000, heap="8g")
     for r in ress:
         out.add_tlc(r)
